@@ -165,7 +165,10 @@ type GenScript struct {
 	ByType   map[string]Action `json:"by_type,omitempty"` // key: <pkgpath>.<TypeName>
 	ByCall   map[int]Action    `json:"by_call,omitempty"` // key: index of the GenerateType call of this generator in this run
 	Stateful bool              `json:"stateful,omitempty"`
-	Alias    *Action           `json:"alias,omitempty"` // behaviour of GenerateAliasType (nil: render nothing)
+	// QuietPkgs: packages in which the stateful generator records its state (seen set, counter) but
+	// renders nothing and returns ErrSkip
+	QuietPkgs []string `json:"quiet_pkgs,omitempty"`
+	Alias     *Action  `json:"alias,omitempty"` // behaviour of GenerateAliasType (nil: render nothing)
 }
 
 type Event struct {
@@ -295,6 +298,13 @@ func (in *inst) generate(gen string, c gengo.Context, named *types.Named) error 
 		// emitted" flag and a running counter, all rendered into the output
 		if in.seen == nil {
 			in.seen = map[string]bool{}
+		}
+		for _, qp := range s.QuietPkgs {
+			if qp == pkg {
+				in.seen[typ] = true
+				in.counter++
+				return gengo.ErrSkip
+			}
 		}
 		if !in.seen[typ] {
 			in.seen[typ] = true
